@@ -7,6 +7,8 @@
 import FlacModel.Model.StreamReader
 import FlacModel.Spec.Rfc
 import FlacModel.Model.Readers
+import FlacModel.Model.Writers
+import FlacModel.Model.Md5
 
 open Flac
 
@@ -221,6 +223,47 @@ def opHist (f : Fields) : String :=
         | _ => histChan s ops { dec := d0, frame := [], consumed := 0 } 0 []
       s!"ok trace={if tr.isEmpty then "-" else ";".intercalate tr}"
 
+/-! ### writer histories -/
+
+/-- split `xs` into the write calls the harness makes: `chunks` sizes, then the rest (if any) -/
+def splitCalls (xs : List α) : List Nat → List (List α)
+  | [] => if xs.isEmpty then [] else [xs]
+  | c :: cs => xs.take c :: splitCalls (xs.drop c) cs
+
+def bytesToSample (be : Bool) (b : List Nat) : Int :=
+  bitsToInt (bytesToBits (if be then b else b.reverse))
+
+def chunkN (n : Nat) : Nat → List α → List (List α)
+  | 0, _ => []
+  | fuel+1, l => if l.isEmpty || n == 0 then [] else l.take n :: chunkN n fuel (l.drop n)
+
+def opWr (f : Fields) (implHead : String) : String :=
+  if implHead != "ok" then "model-skip" else
+  let pcm := parseInts (f.get "pcm")
+  let ch := ((f.get "ch").toNat?).getD 1
+  let bps := ((f.get "bps").toNat?).getD 16
+  let bs := ((f.get "bs").toNat?).getD 4096
+  let chunks := parseNats (f.get "chunks")
+  let be := f.get "endian" == "be"
+  let n := bytesPerSample bps
+  -- blocks as interleaved sample lists
+  let blocks : List (List Int) :=
+    match f.get "fe" with
+    | "byte" =>
+      let raw := pcm.flatMap (sampleBytes n be)
+      let w := (splitCalls raw chunks).foldl (Wr.write (n * ch * bs)) Wr.init
+      (w.finalize (n * ch)).map fun blk => (chunkN n blk.length blk).map (bytesToSample be)
+    | "chan" =>
+      let frames := chunkN ch pcm.length (pcm.take (pcm.length - pcm.length % ch))
+      let w := (splitCalls frames chunks).foldl (Wr.write bs) Wr.init
+      (w.finalize 1).map List.flatten
+    | _ =>
+      let w := (splitCalls pcm chunks).foldl (Wr.write (ch * bs)) Wr.init
+      w.finalize ch
+  let lens := blocks.map fun b => b.length / ch
+  let md5 := Md5.md5 (blocks.flatten.flatMap (sampleBytes n false))
+  s!"ok lens={if lens.isEmpty then "-" else ",".intercalate (lens.map toString)} total={lens.sum} md5={bytesToHex md5}"
+
 def runCase (line : String) : String :=
   let parts := line.splitOn "\t"
   let caseLine := parts.headD ""
@@ -232,6 +275,7 @@ def runCase (line : String) : String :=
   | "streamrw" => opStreamrw f impl implHead profile ++ " @@ -"
   | "encframe" => opEncframe f impl implHead profile
   | "hist" => opHist f ++ " @@ -"
+  | "wr" => opWr f implHead ++ " @@ -"
   | _ => "model-skip @@ -"
 
 partial def loop (h : IO.FS.Stream) (out : IO.FS.Stream) : IO Unit := do
